@@ -87,7 +87,8 @@ SelectEdges(T) == Tick /\ T # {} /\ T \subseteq eds /\ EdgeView(T)
 \* .<group>: the group's rows that are in view
 Group(g) == Tick /\ NodeView(GroupRows[g] \cap rows)
 \* .<Channel name>: the rows in view that contain the channel.  When no row in view has the channel
-\* the code hands back the whole view (select(None)); the chain denotes nothing: see finding F17.
+\* the chain denotes nothing and is refused (the code used to hand back the whole view: defect F17, repaired; ChanAsCoded
+\* below keeps the old behaviour as a regression artefact).
 Chan(c) == Tick /\ NodeView(ChanRows[c] \cap rows)
 ChanAsCoded(c) == Tick /\ (IF ChanRows[c] \cap rows = {} THEN NodeView(rows) ELSE NodeView(ChanRows[c] \cap rows))
 \* .<Synapse type>: the edges of that type in view and the compartments they touch
